@@ -78,7 +78,9 @@ func (e *Engine) intrinsic(fr *Frame, st *State, ins ssa.Instruction, key string
 		sub := &Frame{fn: cfn, cellOf: map[*ssa.Alloc]int{}, free: args[1].Clo.Bindings}
 		e.blocksWrites(sub, cfn.Blocks, ws, fr.depth+1, map[*ssa.Function]bool{cfn: true})
 		if ws.all {
+			restore := e.spareForWrites(st, ws)
 			st.havocAll()
+			restore()
 		}
 		for k := range ws.keys {
 			st.havocKey(k)
@@ -285,7 +287,9 @@ func (e *Engine) callbackIteration(fr *Frame, st *State, ins ssa.Instruction, ke
 	sub := &Frame{fn: cfn, cellOf: map[*ssa.Alloc]int{}, free: clo.Bindings}
 	e.blocksWrites(sub, cfn.Blocks, ws, fr.depth+1, map[*ssa.Function]bool{cfn: true})
 	if ws.all {
+		restore := e.spareForWrites(st, ws)
 		st.havocAll()
+		restore()
 	}
 	for k := range ws.keys {
 		st.havocKey(k)
@@ -336,7 +340,9 @@ func (e *Engine) callbackIteration(fr *Frame, st *State, ins ssa.Instruction, ke
 // payload (one key type per map is assumed, which holds for every sync.Map in /repo); Range stays an
 // unknown number of callback runs and a struct assignment `m = sync.Map{}` is NOT seen by the model.
 
-func smSorts() (string, string) { return arrSort(SInt, arrSort(SInt, SBool)), arrSort(SInt, arrSort(SInt, SInt)) }
+func smSorts() (string, string) {
+	return arrSort(SInt, arrSort(SInt, SBool)), arrSort(SInt, arrSort(SInt, SInt))
+}
 
 var smFieldIDs = map[string]int64{}
 
